@@ -498,6 +498,21 @@ func runC14(c *ctx, r *Report) error {
 		os.RemoveAll(root)
 	}
 	r.Exhaustive = true
-	_, err = b.flush(c, r)
-	return err
+	if _, err = b.flush(c, r); err != nil {
+		return err
+	}
+	// `steps.<id>.outputs.<name>` of bundled actions inside whole workflows: the model AL.Visit keeps the declared outputs of
+	// every step registered so far (also after a step whose id contains a placeholder opens the steps object);
+	// AL.Props.C05Visit.steps_strict / steps_ids say what is in scope. A differing 'not defined' report is a failing input.
+	nV := 250
+	if !c.quick {
+		nV = 5000
+	}
+	return visitTie(c, r, nV, false, func(cs Case) (string, string) {
+		names := []string{"prop-undefined", "filter-prop-undefined", "undefined-variable"}
+		if a, b := visitCodes(cs.Impl, names...), visitCodes(cs.Model, names...); a != b {
+			return "step-outputs-scope-differs-from-proved-rule", "the 'not defined' reports at the probes (" + a + ") differ from the proved scope rule (" + b + ")"
+		}
+		return "", ""
+	})
 }
